@@ -154,7 +154,8 @@ class ToolchainGen:
         for _ in range(n):
             self.op()
         if self.rng.random() < 0.3:
-            self.emit("install_dirs(prefix='/opt/bfgsim')")
+            self.emit("install_dirs(prefix={!r})".format(
+                os.path.join(self.w.root, 'tcprefix')))
             self.used.add('install_dirs')
         if self.rng.random() < 0.2:
             self.emit("target_platform('linux')")
@@ -363,11 +364,12 @@ def gen_scenario(seed, root, params):
     if rng.random() < 0.4:
         proj.conf_args += ['--level={}'.format(rng.randrange(5))]
     if rng.random() < 0.3:
-        proj.conf_args += ['--prefix=/opt/pfx{}'.format(rng.randrange(9))]
+        proj.conf_args += ['--prefix=' + os.path.join(
+            w.root, 'pfx{}'.format(rng.randrange(9)))]
     if rng.random() < 0.2:
         proj.conf_args += ['--disable-compdb']
     if rng.random() < 0.2:
-        proj.conf_args += ['--libdir=/opt/lib64']
+        proj.conf_args += ['--libdir=' + os.path.join(w.root, 'lib64')]
 
     env = R.base_env(w)
     env.pop('BFG9000', None)
